@@ -293,3 +293,29 @@ def simple_primaries():
             progress_contract("is_empty_line.py", "IsEmptyLine", empty_extra,
                               {0: dict(invariant=["i >= 0", "forall(0, i, lambda k: kind_in(context, k, ('SPACE', 'TAB')))"],
                                        variant="ntok(context) - i", pure=True)})]
+
+
+def func_declaration():
+    """IsFuncDeclaration.run: the functions counter (C03) and progress (C05a / C07).
+    check_func_format is used through an ASSUMED call-site contract: a match reports a
+    position >= 1, and it writes neither context.tokens nor scope.functions (the latter is
+    a complete AST fact: `functions` is assigned in IsFuncDeclaration.run only)."""
+    key = f"{R}is_func_declaration.py:IsFuncDeclaration."
+    cff = Contract(key + "check_func_format", result=("bool", "int"))
+    cff.modifies = ["context.fname_pos:int", "context.arg_pos:opaque"]
+    cff.ens("implies(result[0] is True, result[1] >= 1)", "assumed_match_position")
+    cff.rais("CParsingError")
+    cff.assumed = True
+    c = Contract(key + "run", setup=primary_setup(R + "is_func_declaration.py", "IsFuncDeclaration"))
+    c.req("ntok(context) >= 1")
+    c.rais("CParsingError")
+    c.ens("result[0] is True or result[0] is False", "returns_a_pair_with_bool")
+    c.ens("implies(result[0] is True, result[1] >= 1)", "match_means_progress")
+    c.ens("implies(result[0] is True, context.scope.functions == old(context.scope.functions) + 1)",
+          "a_match_counts_one_function")
+    c.ens("implies(result[0] is False, context.scope.functions == old(context.scope.functions))",
+          "no_match_counts_nothing")
+    c.ens("ntok(context) == old(ntok(context)) and tok_off(context) == old(tok_off(context))", "tokens_not_assigned")
+    c.loop(0, invariant=["read >= 1"], variant="ntok(context) - read", pure=True)
+    c.mustfail("context.scope.functions == old(context.scope.functions)", "never_counts")
+    return c, cff
